@@ -18,7 +18,7 @@ ID = "C12"
 RULE = (
     "all ordered pairs of grids {mixed 3..6-gon patch, cube, tetrahedron (n_node = n_face), single triangle (n_node = n_edge, one face), pyramid whose face centres "
     "come from the source and are displaced from the corner mean} x data on {nodes, edges, faces} x remap_to {nodes, edge centers, face centers} x coord_type {spherical, "
-    "cartesian} x data {every unit impulse, identity, ones, generic, generic int64, constant int64; leading dims (), (2), (2,3)}; IDW additionally x k in {2, 3, n} x power in {1, 2, 5}. "
+    "cartesian} x data {every unit impulse, identity, ones, generic, generic int64, constant int64; leading dims (), (2), (2,3)}; IDW additionally x k in {2, 3, n} x power in {1, 2, 5}; call histories: every sequence of d remap calls over the 36 (method, coordinate type, destination, source kind) variants on the same two Grid objects, every call judged. "
     "plus histories: all 6 orders of remapping a node-, an edge- and a face-centred variable between the same two Grid objects (NN and IDW). non-trivial = pair of different grids or a history; distinct = (source, destination, kind, remap_to, coord_type, k, power)"
 )
 ASSUMPTIONS = [
@@ -26,7 +26,7 @@ ASSUMPTIONS = [
     "IDW: only what the statement says is required - weights >= 0, rows sum to 1, support within the k nearest, weights non-increasing with distance, constants reproduced",
     "the element dimension is the last dimension",
 ]
-BOUNDS = {"quick": "5 grids (25 ordered pairs), IDW (k, power) in {(2,2), (3,1), (n,5)}", "thorough": "7 grids (49 pairs), IDW k in {2,3,n} x power in {1,2,5}"}
+BOUNDS = {"quick": "5 grids (25 ordered pairs), IDW (k, power) in {(2,2), (3,1), (n,5)}; call histories of depth 2 over 36 call variants on 2 grid pairs", "thorough": "7 grids (49 pairs), IDW k in {2,3,n} x power in {1,2,5}; call histories of depth 3 over 36 call variants on 1 grid pair (46656 sequences), depth 2 on 3 more"}
 GRIDS_Q = ["mixedpatch", "cube", "tetra", "single3", "centres:pyr5"]
 GRIDS_T = GRIDS_Q + ["amstrip", "polefan"]
 DEST = {"nodes": "n_node", "edge centers": "n_edge", "face centers": "n_face"}
@@ -57,7 +57,65 @@ def _pos(g, kind):
 
 def cases(tier):
     gl = GRIDS_Q if tier == "quick" else GRIDS_T
-    return [{"src": a, "dst": b, "tier": tier} for a in gl for b in gl]
+    out = [{"src": a, "dst": b, "tier": tier} for a in gl for b in gl]
+    # call histories on the same two Grid objects: every sequence of `depth` remap calls over 36 (method, coordinate type, destination, source kind) variants
+    for a, b, d in ([("mixedpatch", "cube", 2), ("centres:pyr5", "mixedpatch", 2)] if tier == "quick" else [("mixedpatch", "cube", 3), ("centres:pyr5", "mixedpatch", 2), ("tetra", "mixedpatch", 2), ("amstrip", "polefan", 2)]):
+        for first in range(len(CALLS)):
+            out.append({"kind": "calls", "src": a, "dst": b, "first": first, "depth": d, "tier": tier})
+    return out
+
+
+CALLS = [(me, co, rt, el) for me in ("nn", "idw") for co in ("spherical", "cartesian") for rt in ("nodes", "edge centers", "face centers") for el in ("n_node", "n_edge", "n_face")]
+
+
+def _run_calls(case, res):
+    V = res["violations"]
+    pool.fresh()
+    gs_ref, _ = _grid(case["src"])
+    gd_ref, _ = _grid(case["dst"])
+    Dpos = {rt: _pos(gd_ref, rt) for rt in DEST}
+    Spos = {el: _pos(gs_ref, KIND[el]) for el in KIND}
+    dist = {(rt, el): sph.angle(Dpos[rt][:, None, :], Spos[el][None, :, :]) for rt in DEST for el in KIND}
+    for rest in itertools.product(range(len(CALLS)), repeat=case["depth"] - 1):
+        seq = (case["first"],) + rest
+        if "only" in case and list(seq) != case["only"]["seq"]:
+            continue
+        focus = dict(case, only={"seq": list(seq)})
+        pool.fresh()
+        gs, _ = _grid(case["src"])
+        gd, _ = _grid(case["dst"])
+        res["evaluations"] += 1
+        key = digest((case["src"], case["dst"], "calls", seq))
+        res["states"].append(key)
+        if len(set(seq)) > 1:
+            res["nontrivial"].append(key)
+        for step, ci in enumerate(seq):
+            me, co, rt, el = CALLS[ci]
+            dd = dist[(rt, el)]
+            n_src = dd.shape[1]
+            if me == "idw" and n_src < 2:
+                continue
+            res["transitions"] += 1
+            try:
+                if me == "nn":
+                    o = np.asarray(build.uxda(gs, np.arange(n_src, dtype=float), el).remap.nearest_neighbor(gd, remap_to=rt, coord_type=co).values, dtype=float)
+                    ch = np.rint(o).astype(int)
+                    ok = o.shape == (dd.shape[0],) and np.all((ch >= 0) & (ch < n_src)) and np.all(dd[np.arange(dd.shape[0]), np.clip(ch, 0, n_src - 1)] <= dd.min(axis=1) + 1e-9)
+                else:
+                    e0 = np.zeros(n_src)
+                    e0[0] = 1.0
+                    o = np.asarray(build.uxda(gs, e0, el).remap.inverse_distance_weighted(gd, remap_to=rt, coord_type=co, k=2).values, dtype=float)
+                    d2 = np.sort(dd, axis=1)[:, 1]
+                    ok = o.shape == (dd.shape[0],) and not np.any((o > 1e-15) & (dd[:, 0] > d2 + 1e-9)) and np.all((o >= -1e-12) & (o <= 1 + 1e-12))
+            except Exception as e:
+                ok, o = False, repr(e)
+            if not ok:
+                V.append({"oracle": "remap", "sig": "c12:calls:%s:%s" % (me, "first-call" if step == 0 else "wrong-after-other-call"), "msg": "%s -> %s (same two Grid objects), calls %s: call %d is wrong: %s" % (case["src"], case["dst"], [CALLS[i] for i in seq], step, o if isinstance(o, str) else np.round(o, 6).tolist()), "focus": focus})
+                break
+        res["outcomes"].append(digest(seq[-1]))
+    res["axes"] = {"call_history_depth": {str(case["depth"]): res["evaluations"]}}
+    res["sample"] = {"kind": "calls", "src": case["src"], "dst": case["dst"], "first": list(CALLS[case["first"]])}
+    return res
 
 
 def selftest_case(tier):
@@ -74,6 +132,8 @@ def run_case(case):
     res = {"violations": [], "evaluations": 0, "transitions": 0, "nontrivial": [], "outcomes": [], "axes": {}, "states": []}
     V = res["violations"]
     tier = case["tier"]
+    if case.get("kind") == "calls":
+        return _run_calls(case, res)
     for elem in ("n_node", "n_edge", "n_face"):
         for remap_to in DEST:
             for coord in ("spherical", "cartesian"):
